@@ -102,6 +102,10 @@ pub trait SubDyn {
     fn cases(&self, tier: Tier) -> u64;
     fn run_worker(&self, tier: Tier, seed: u64, cases: u64, stats: &mut Stats, prop: &str);
     fn replay(&self, v: &JsonValue) -> Option<(Verdict, Obs)>;
+    /// Coverage-guided fuzzing of the same strategy: the bytes are the entropy the strategy draws from (proptest's pass-through
+    /// RNG), so a fuzzer mutating the bytes mutates the generated case.  Returns the verdict, the case as JSON and whether the
+    /// case was non-trivial.
+    fn check_from_entropy(&self, tier: Tier, data: &[u8]) -> Option<(Verdict, JsonValue, bool)>;
 }
 
 impl<C: Clone + std::fmt::Debug + 'static> SubDyn for Sub<C> {
@@ -112,6 +116,24 @@ impl<C: Clone + std::fmt::Debug + 'static> SubDyn for Sub<C> {
         let mut obs = Obs::default();
         let verdict = (self.check)(&c, &mut obs);
         Some((verdict, obs))
+    }
+    fn check_from_entropy(&self, tier: Tier, data: &[u8]) -> Option<(Verdict, JsonValue, bool)> {
+        use proptest::strategy::{Strategy, ValueTree};
+        use proptest::test_runner::{RngAlgorithm, TestRng};
+        let cfg = Config { failure_persistence: None, ..Config::default() };
+        // the fuzzer's bytes first; once they are used up the stream continues pseudo-randomly (seeded by the bytes) instead of
+        // with zeros, which would drive filtering strategies into their rejection limits
+        let mut buf = data.to_vec();
+        let mut x = hash_str(&format!("{:?}", &data[..data.len().min(64)])) | 1;
+        while buf.len() < data.len() + 16384 { x ^= x << 13; x ^= x >> 7; x ^= x << 17; buf.extend_from_slice(&x.to_le_bytes()); }
+        let mut runner = TestRunner::new_with_rng(cfg, TestRng::from_seed(RngAlgorithm::PassThrough, &buf));
+        if std::env::var("ACBVERIF_DEBUG").is_ok() { let a = proptest::prelude::any::<u64>().new_tree(&mut runner).map(|t| t.current()).unwrap_or(0); let b = proptest::prelude::any::<u64>().new_tree(&mut runner).map(|t| t.current()).unwrap_or(0); eprintln!("DEBUG buf len {} first draws {:x} {:x}", buf.len(), a, b); }
+        let tree = (self.strategy)(tier).new_tree(&mut runner).ok()?;
+        let case = tree.current();
+        let mut obs = Obs::default();
+        let verdict = (self.check)(&case, &mut obs);
+        let nt = obs.nontrivial || !obs.nt_keys.is_empty();
+        Some((verdict, (self.to_json)(&case), nt))
     }
     fn run_worker(&self, tier: Tier, seed: u64, cases: u64, stats: &mut Stats, prop: &str) {
         if cases == 0 { return; }
